@@ -103,4 +103,33 @@ func ruleSIGCELL(c *Ctx) {
 	if n < 2 {
 		c.add(rule, "count:", token.NoPos, CountDropped, true, "only %d signature elements found inside the Lalr row loop (terminal and action confirmed by hand)", n)
 	}
+	// every (terminal, action) pair of the row is appended: no path from the loop body back to the
+	// header around the append
+	for _, lp := range loops {
+		var ab *ssa.BasicBlock
+		for b := range lp.Body {
+			for _, ins := range b.Instrs {
+				if call, ok := ins.(*ssa.Call); ok {
+					if bi, ok := call.Call.Value.(*ssa.Builtin); ok && bi.Name() == "append" && innermostLoop(loops, b) == lp {
+						ab = b
+					}
+				}
+			}
+		}
+		if ab == nil {
+			continue
+		}
+		key := ssaFuncKey(fn) + ":every-pair"
+		skipped := false
+		for _, s := range lp.Header.Succs {
+			if lp.Body[s] && s != ab && reachesWithout(s, lp.Header, ab) {
+				skipped = true
+			}
+		}
+		if skipped {
+			c.Bad(rule, key, ab.Instrs[0].Pos(), "some (terminal, action) pairs of a lookahead row are left out of the state's signature: states that differ only in those pairs (shift vs. nonassoc error on the same terminal) start in one partition, and the refinement only separates states by their transitions")
+		} else {
+			c.Ok(rule, key, ab.Instrs[0].Pos(), "every (terminal, action) pair of the row is appended to the signature")
+		}
+	}
 }
